@@ -873,7 +873,7 @@ func c11r3(c *Ctx) {
 	for _, tn := range []string{"RPCRelayV2Header", "RPCRelayV2BlockOutline"} {
 		cc := clauseOf(f, tn)
 		if cc == nil {
-			ir.Fail("no case for gateway." + tn)
+			ir.Fail("no case for gateway.%s", tn)
 		}
 		// work test and attach test inside the clause
 		var workOK, attachOK []*cfgx.Edge
